@@ -119,8 +119,8 @@ Definition grower_op (pb : publish) (o : gop) (g : grower) (d : fs) : fs * growe
   match o with
   | GCreate => (fs_set w Torn d, g_advance g)               (* O_CREAT|O_TRUNC *)
   | GWriteFirst => (fs_set w Torn d, g_advance g)
-  | GWriteLast => (fs_set w (Whole (g_batch g)) d, g_advance g)
-  | GClose => (d, g_advance g)
+  | GWriteLast => (fs_set w Torn d, g_advance g)            (* the rest is still in the writer's buffer *)
+  | GClose => (fs_set w (Whole (g_batch g)) d, g_advance g) (* flushed on close: only now complete *)
   | GRename =>
       match fs_get w d with
       | Some c => (fs_set (FResult (g_batch g)) c (fs_del w d), g_advance g)
